@@ -155,7 +155,8 @@ def analyse_function(ctx, repo, rel, func, seed, done, is_setup=False):
     func = exitstack_to_with(_cp(orig))
     link(func)
     func.parent = getattr(orig, "parent", None)
-    roles = Roles(func, seed, TUPLE_CALLS)
+    roles = Roles(func, seed, TUPLE_CALLS, _tuple_fields(repo),
+                  _helper_roles(repo, rel))
     cfg = CFG(func)
     n_nodes, n_edges, n_x = cfg.count_paths_kinds()
     st = ctx.stats.setdefault("cfg", {})
@@ -398,6 +399,85 @@ def analyse_function(ctx, repo, rel, func, seed, done, is_setup=False):
                "renaming temp to output (result stays under the temp name) ",
                node=w, label=f"reaches-rename {short(w, 60)}")
     return roles
+
+
+def _tuple_fields(repo):
+    """field names of the named tuple `setup_task_paths` returns (None for
+    a plain tuple): read from its return statement and the namedtuple
+    definition in cli/common.py"""
+    rel, name = SETUP
+    func = repo.func(rel, name)
+    tree = repo.tree(rel)
+    out = {}
+    for r in [n for n in walk(func) if isinstance(n, ast.Return)]:
+        v = r.value
+        if isinstance(v, ast.Call) and isinstance(v.func, ast.Name):
+            fields = None
+            for st in tree.body:
+                if isinstance(st, ast.Assign) and any(
+                        isinstance(t, ast.Name) and t.id == v.func.id
+                        for t in st.targets) and isinstance(
+                        st.value, ast.Call) and (call_name(st.value) or ""
+                                                 ).endswith("namedtuple") \
+                        and len(st.value.args) >= 2:
+                    fl = st.value.args[1]
+                    if isinstance(fl, (ast.List, ast.Tuple)):
+                        fields = [const_str(x) for x in fl.elts]
+                    elif const_str(fl):
+                        fields = const_str(fl).replace(",", " ").split()
+                elif isinstance(st, ast.ClassDef) and st.name == v.func.id:
+                    fields = [b.target.id for b in st.body
+                              if isinstance(b, ast.AnnAssign)
+                              and isinstance(b.target, ast.Name)]
+            if not fields or len(fields) != 3 or None in fields:
+                raise AnalysisError("setup_task_paths returns "
+                                    f"`{short(v, 40)}`: not a recognised "
+                                    "named tuple of three fields")
+            # the order of (input, output, temporary) is decided by the
+            # model evaluation of the set-up; here: field name per position
+            order = [None, None, None]
+            for i, a in enumerate(v.args):
+                order[i] = fields[i]
+            for kw in v.keywords:
+                if kw.arg in fields:
+                    order[fields.index(kw.arg)] = kw.arg
+            if None in order:
+                raise AnalysisError("setup_task_paths: named tuple built "
+                                    "with missing fields")
+            for k in TUPLE_CALLS:
+                out[k] = list(fields)
+    return out
+
+
+def _helper_roles(repo, rel):
+    """roles of the value a small helper of dclab/cli returns (e.g.
+    ``common.get_temp_path(po)`` = ``po.with_suffix('.rtdc~')``)"""
+    def summ(call, roles):
+        res = resolve_cli_callee(repo, rel, call)
+        if res is None:
+            return None
+        crel, cfunc = res
+        if (crel, cfunc.name) == SETUP:
+            return None
+        rets = [n for n in walk(cfunc) if isinstance(n, ast.Return)]
+        body = [b for b in cfunc.body if not (
+            isinstance(b, ast.Expr) and isinstance(b.value, ast.Constant))]
+        if len(rets) != 1 or len(body) > 3 or rets[0].value is None:
+            return None
+        params = [a.arg for a in cfunc.args.args]
+        seed = {}
+        for i, a in enumerate(call.args):
+            if i < len(params):
+                seed[params[i]] = roles.of(a)
+        for kw in call.keywords:
+            if kw.arg in params:
+                seed[kw.arg] = roles.of(kw.value)
+        seed = {k: v for k, v in seed.items() if v}
+        if not seed:
+            return None
+        inner = Roles(cfunc, seed)
+        return inner.of(rets[0].value)
+    return summ
 
 
 def _renaming_helper(cfunc, arg_roles):
